@@ -132,12 +132,18 @@ class Runner:
         # at a time with the long timeout - a deterministic hang has been established by then and each of them
         # still gets 6 x the ordinary limit.
         late = [i for i, r in enumerate(res) if isinstance(r, Result) and r.timed_out]
-        for n_, i in enumerate(late[:2]):
-            self.nretry += 1
+        def _confirm(i):
             r2 = run_one(self.exe, cases[i][0], cases[i][1], self.env, self.timeout2, self.cwd)
             if r2.timed_out and b"output exceeded" not in r2.err:
                 r2 = run_one(self.exe, cases[i][0], cases[i][1], self.env, 5 * self.timeout2, self.cwd)
-            res[i] = self.post(cases[i][0], cases[i][1], r2) if self.post else r2
+            return r2
+        if late:
+            # the two confirmations run side by side (2 of the 16 cores, the pool is idle by now)
+            from concurrent.futures import ThreadPoolExecutor
+            with ThreadPoolExecutor(2) as ex:
+                for i, r2 in zip(late[:2], ex.map(_confirm, late[:2])):
+                    self.nretry += 1
+                    res[i] = self.post(cases[i][0], cases[i][1], r2) if self.post else r2
         if len(late) > 2:
             from concurrent.futures import ThreadPoolExecutor
             with ThreadPoolExecutor(4) as ex:
